@@ -131,6 +131,136 @@ func nonLoopGuards(ls []Lit) []Lit {
 }
 
 // ruleImportResolution: IMPORT-PKG + RESOLVE-ORDER + how the annotation is resolved.
+// resolveOrderTable: the single `return candidate` of Find in block blk is guarded by a call of a predicate taken, in
+// an outer loop, from a package-level slice of function literals, with the candidate taken from the entries in an
+// inner loop. Returns the kinds of the predicates in list order.
+func (c *Ctx) resolveOrderTable(find *ssa.Function, blk *ssa.BasicBlock) ([]string, bool) {
+	P := c.P
+	var dyn *ssa.Call
+	for _, l := range P.BlockGuards(blk) {
+		if call := litCall(l); call != nil && l.Pos && call.Call.StaticCallee() == nil && !call.Call.IsInvoke() {
+			dyn = call
+		}
+	}
+	if dyn == nil || len(dyn.Call.Args) != 2 {
+		return nil, false
+	}
+	// callee value: element of a range over a global slice
+	var g *ssa.Global
+	var outerIdx ssa.Value
+	{
+		u, ok := dyn.Call.Value.(*ssa.UnOp)
+		if !ok {
+			return nil, false
+		}
+		ia, ok := u.X.(*ssa.IndexAddr)
+		if !ok || !(isRangeIndex(ia.Index) || isFullIndexLoopOver(ia.Index, ia.X)) {
+			return nil, false
+		}
+		outerIdx = ia.Index
+		if lu, ok := ia.X.(*ssa.UnOp); ok {
+			if gg, ok := lu.X.(*ssa.Global); ok {
+				g = gg
+			}
+		}
+	}
+	if g == nil {
+		return nil, false
+	}
+	// the candidate loop is nested inside the predicate loop (priority first, then entries)
+	oi, ok := outerIdx.(ssa.Instruction)
+	if !ok {
+		return nil, false
+	}
+	outer := loopOf(oi.Block())
+	if outer == nil || !outer[dyn.Block()] {
+		return nil, false
+	}
+	inner := loopOf(dyn.Block())
+	if inner == nil || len(inner) >= len(outer) {
+		return nil, false
+	}
+	// the list: function literals stored into the backing array in package init
+	initFn := g.Pkg.Func("init")
+	type ent struct {
+		idx int64
+		fn  *ssa.Function
+	}
+	var ents []ent
+	allInstrs(initFn, func(b *ssa.BasicBlock, ins ssa.Instruction) {
+		st, ok := ins.(*ssa.Store)
+		if !ok || st.Addr != g {
+			return
+		}
+		sl, ok := st.Val.(*ssa.Slice)
+		if !ok {
+			return
+		}
+		arr, ok := sl.X.(*ssa.Alloc)
+		if !ok {
+			return
+		}
+		for _, rr := range *arr.Referrers() {
+			ia, ok := rr.(*ssa.IndexAddr)
+			if !ok {
+				continue
+			}
+			k, isC := constInt(ia.Index)
+			if !isC {
+				continue
+			}
+			for _, s2 := range *ia.Referrers() {
+				if st2, ok := s2.(*ssa.Store); ok && st2.Addr == ia {
+					if f := P.closureValue(st2.Val, 0); f != nil {
+						ents = append(ents, ent{k, f})
+					}
+				}
+			}
+		}
+	})
+	if len(ents) == 0 {
+		return nil, false
+	}
+	sort.Slice(ents, func(i, j int) bool { return ents[i].idx < ents[j].idx })
+	var kinds []string
+	for _, e := range ents {
+		kind := "?"
+		if len(e.fn.Params) == 2 {
+			name := P.Desc(e.fn.Params[1])
+			allInstrs(e.fn, func(b *ssa.BasicBlock, ins ssa.Instruction) {
+				r, ok := ins.(*ssa.Return)
+				if !ok || len(r.Results) != 1 {
+					return
+				}
+				lits := append(append([]Lit{}, P.BlockGuards(b)...), literals(P.condFormula(r.Results[0], 0), true)...)
+				for _, l := range lits {
+					if l.Kind == "eq" && l.Pos {
+						other := ""
+						if P.Desc(l.X) == name {
+							other = P.Desc(l.Y)
+						} else if P.Desc(l.Y) == name {
+							other = P.Desc(l.X)
+						}
+						switch {
+						case strings.HasSuffix(other, "util.Import.Alias)"):
+							kind = "alias"
+						case strings.HasSuffix(other, "util.Import.PackageName)"):
+							kind = "name"
+						case strings.HasSuffix(other, "util.Import.FullPath)"):
+							kind = "path"
+						}
+					}
+					if call := litCall(l); call != nil && l.Pos && call.Call.StaticCallee() != nil && FuncName(call.Call.StaticCallee()) == "util.matchesPathComponentWithSlash" {
+						kind = "suffix"
+					}
+				}
+			})
+		}
+		kinds = append(kinds, kind)
+	}
+	return kinds, true
+}
+
 func (c *Ctx) ruleImportResolution() {
 	P := c.P
 	// IMPORT-PKG: every ImportMap.Add gets the package the spec imports (or nil)
@@ -237,6 +367,15 @@ func (c *Ctx) ruleImportResolution() {
 		}
 		rets = append(rets, ret{kind, b})
 	})
+	// table-driven form: one return under `matches(candidate, shortName)` with matches ranging over a package-level
+	// list of predicates (outer loop) and candidate over the entries (inner loop): the order is the order of the list
+	if len(rets) == 1 && rets[0].kind == "?" {
+		if kinds, ok := c.resolveOrderTable(find, rets[0].blk); ok {
+			want := []string{"alias", "name", "path", "suffix"}
+			c.check(strings.Join(kinds, ",") == strings.Join(want, ","), "RESOLVE-ORDER", "util.ImportMap.Find", P.Pos(find.Pos()), "explicit alias > declared package name > exact path > last path element (predicate table, in this order)", fmt.Sprintf("qualifier resolution order is not alias > package name > exact path > path suffix (predicate table gives %v)", kinds))
+			return
+		}
+	}
 	// order by dominance of the loops: a return of kind k must be reachable only after the loops of earlier kinds finished
 	sort.Slice(rets, func(i, j int) bool { return rets[i].blk.Index < rets[j].blk.Index })
 	var kinds []string
